@@ -260,6 +260,19 @@ def c14_scenario(S, fmt, ch, rate, rng, N=None):
         S.add("open 2 %s r 9 0 0 0" % rt)
 
 
+def c14_foreign(S, data, ch, rng, routes=("vio", "fd", "fdk", "path", "pipe"), reads=(7, 64, 1000)):
+    """a valid file that this library did not write (trust=1): every route must report the same SF_INFO and deliver the same samples"""
+    S.scn(kind="c14f", trust=1, ch=ch, flen=len(data))
+    S.add("file 1 hex %s" % data.hex())
+    for rt in routes:
+        S.add("open 1 %s r 1 0 0 0" % rt)
+        for c in reads:
+            S.add("read 1 s f %d" % c)
+        if rt != "pipe":
+            S.add("seek 1 5 0", "read 1 s f 3", "seek 1 0 0", "read 1 i f 11")
+        S.add("info 1", "getstr 1 1", "close 1")
+
+
 def c16_scenarios(S, exe, fmts, rate, rng, cuts):
     """opens that fail at every parse depth: a valid file truncated at each cut point; plus handles closed without I/O"""
     for fmt, ch in fmts:
